@@ -123,7 +123,17 @@ JINJA_SYNTAX = {
 
 DEFAULT_SET = {"w1": "default", "w2": "default", "l2p_over": False, "p2p_over": False,
                "dirname": False, "reuse": False, "defname": False, "extra": False,
-               "verbose": False, "defcmd": False}
+               "verbose": False, "defcmd": False,
+               # "slow": the source of the flow is slower than the converters (a pause after
+               # every value), so that conversions finish while the flow is still being read
+               "slow": False}
+
+
+def _paused(flow):
+    import time
+    for v in flow:
+        yield v
+        time.sleep(0.05)
 
 
 def settings(**kw):
@@ -260,6 +270,22 @@ def cases(tier, seed):
                "prefix": [rand_step(rng, "single", npl)
                           for _ in range(rng.randint(0, 2 if thorough else 1))],
                "fan": [rand_step(rng, "single", npl) for _ in range(16 if thorough else 8)]}
+    # (d2) the same with a source slower than the converters (conversions of earlier values
+    # have finished when later values arrive), emphasis on deleted pdf files
+    nsample = 120 if thorough else 10
+    for j in range(nsample):
+        rng = gen.rng_for(seed, "C19", "slow", j)
+        npl = rng.choice([2, 3])
+        st = settings(slow=True, l2p_over=(j % 3 == 0))
+        arts = artefacts("single", npl)
+
+        def pdf_step():
+            return {"data": [int(rng.random() < 0.3) for _ in range(npl)], "tmpl": 0,
+                    "del": [a for a in arts if (a.startswith("pdf") and rng.random() < 0.6)
+                            or rng.random() < 0.1]}
+        yield {"k": "hist", "pipe": "single", "n": npl, "set": st,
+               "prefix": [{"data": [0] * npl, "tmpl": 0, "del": []}],
+               "fan": [pdf_step() for _ in range(8 if thorough else 4)]}
     # (e) LaTeXToPDF fed with the user's own tex files (no Write: output.changed absent,
     #     lena compares mtimes), 2 files: all 2-run (quick) / 3-run (thorough) histories
     dsteps = all_steps("direct", 2)        # 4 * 16 = 64 steps
@@ -585,7 +611,8 @@ class World(object):
         self.stdout = io.StringIO()
         try:
             with contextlib.redirect_stdout(self.stdout):
-                results = list(self.seq.run(flow))
+                results = list(self.seq.run(_paused(flow) if self.set.get("slow")
+                                            else flow))
         except Exception as e:  # pylint: disable=broad-except
             import sys
             import traceback
